@@ -44,6 +44,10 @@ pub struct T14 {
     pub delay: u8,
     /// The client's first frame happens before (false) or after (true) extra server frames.
     pub late_client: bool,
+    /// Sessions of the same two apps: after the first handshake the connection is closed on both ends,
+    /// each app runs `reconnect - 1` more frames, and the handshake is repeated on a new connection.
+    #[serde(default)]
+    pub reconnect: u8,
 }
 
 fn canon(seq: &[Reg]) -> Vec<Reg> {
@@ -209,76 +213,93 @@ impl C14 {
         if hash_of(&t.server) != hs {
             v("hash_not_repeatable", "the same sequence hashed differently in a second app".into());
         }
-        // Handshake.
+        // Handshake(s).
         server.world_mut().resource_mut::<RepliconServer>().set_running(true);
-        let ce = server.world_mut().spawn(ConnectedClient { max_size: 1200 }).id();
-        client.world_mut().resource_mut::<RepliconClient>().set_status(RepliconClientStatus::Connected);
-        let mut c2s: Vec<(usize, Bytes)> = vec![];
-        let mut mismatch_sent = 0;
-        let mut other_sent = 0;
-        let mut step = |server: &mut App, client: &mut App, c2s: &mut Vec<(usize, Bytes)>, deliver: bool, stats: &mut Stats| -> Result<(), String> {
-            upd(client)?;
-            stats.client_frames += 1;
-            c2s.extend(client.world_mut().resource_mut::<RepliconClient>().drain_sent());
-            if deliver {
-                for (ch, b) in c2s.drain(..) {
-                    server.world_mut().resource_mut::<RepliconServer>().insert_received(ce, ch, b);
+        for session in 0..=(t.reconnect > 0) as usize {
+            let tag = if session == 0 { String::new() } else { format!("[second session of the same apps, {} frame(s) after the first was closed] ", t.reconnect) };
+            let ce = server.world_mut().spawn(ConnectedClient { max_size: 1200 }).id();
+            client.world_mut().resource_mut::<RepliconClient>().set_status(RepliconClientStatus::Connected);
+            let mut c2s: Vec<(usize, Bytes)> = vec![];
+            let mut mismatch_sent = 0;
+            let mut other_sent = 0;
+            let mut step = |server: &mut App, client: &mut App, c2s: &mut Vec<(usize, Bytes)>, deliver: bool, stats: &mut Stats| -> Result<(), String> {
+                upd(client)?;
+                stats.client_frames += 1;
+                c2s.extend(client.world_mut().resource_mut::<RepliconClient>().drain_sent());
+                if deliver {
+                    for (ch, b) in c2s.drain(..) {
+                        server.world_mut().resource_mut::<RepliconServer>().insert_received(ce, ch, b);
+                    }
+                } else if !c2s.is_empty() {
+                    stats.fault("hold");
                 }
-            } else if !c2s.is_empty() {
-                stats.fault("hold");
+                upd(server)?;
+                stats.server_frames += 1;
+                Ok(())
+            };
+            let mut res = Ok(());
+            if t.late_client {
+                res = upd(&mut server);
+                stats.fault("client_stall");
             }
-            upd(server)?;
-            stats.server_frames += 1;
-            Ok(())
-        };
-        let mut res = Ok(());
-        if t.late_client {
-            res = upd(&mut server);
-            stats.fault("client_stall");
-        }
-        for i in 0..(t.delay as usize + 4) {
-            if res.is_err() {
-                break;
-            }
-            res = step(&mut server, &mut client, &mut c2s, i >= t.delay as usize, &mut stats);
-            let sent: Vec<(Entity, usize, Bytes)> = server.world_mut().resource_mut::<RepliconServer>().drain_sent().collect();
-            for (e, ch, _) in sent {
-                // ProtocolMismatch is the first server event channel (registered by the shared plugin).
-                if e == ce && ch == 2 {
-                    mismatch_sent += 1;
-                } else {
-                    other_sent += 1;
+            for i in 0..(t.delay as usize + 4) {
+                if res.is_err() {
+                    break;
+                }
+                res = step(&mut server, &mut client, &mut c2s, i >= t.delay as usize, &mut stats);
+                let sent: Vec<(Entity, usize, Bytes)> = server.world_mut().resource_mut::<RepliconServer>().drain_sent().collect();
+                for (e, ch, _) in sent {
+                    // ProtocolMismatch is the first server event channel (registered by the shared plugin).
+                    if e == ce && ch == 2 {
+                        mismatch_sent += 1;
+                    } else {
+                        other_sent += 1;
+                    }
                 }
             }
+            if let Err(p) = res {
+                v("panic", format!("{tag}handshake panicked: {p}"));
+                return Outcome { violations, stats, harness_error: None, log };
+            }
+            let authorized = server.world().get_entity(ce).map(|e| e.contains::<AuthorizedClient>()).unwrap_or(false);
+            let requests = server.world().resource::<Requests>().0.clone();
+            if equal {
+                if !authorized {
+                    v("matching_client_not_authorized", format!("{tag}hashes match ({hs}) but the client was not authorized"));
+                }
+                if mismatch_sent > 0 || requests.contains(&ce) {
+                    v("matching_client_rejected", format!("{tag}hashes match but {mismatch_sent} mismatch message(s) were sent and a disconnect was requested: {}", requests.contains(&ce)));
+                }
+            } else {
+                if authorized {
+                    v("mismatching_client_authorized", format!("{tag}server {hs} authorized a client with {hc}"));
+                }
+                if mismatch_sent == 0 {
+                    v("mismatch_not_notified", format!("{tag}hashes differ but no ProtocolMismatch was sent to the client"));
+                }
+                if !requests.contains(&ce) {
+                    v("disconnect_not_requested", format!("{tag}hashes differ but no DisconnectRequest was emitted for the client"));
+                }
+                if other_sent > 0 {
+                    v("data_to_mismatching_client", format!("{tag}{other_sent} other message(s) were sent to the client whose protocol differs"));
+                }
+            }
+            if session == 0 && t.reconnect > 0 {
+                // Close both ends the way a backend does, then let both apps run.
+                stats.fault("reconnect");
+                server.world_mut().despawn(ce);
+                client.world_mut().resource_mut::<RepliconClient>().set_status(RepliconClientStatus::Disconnected);
+                let _: Vec<_> = client.world_mut().resource_mut::<RepliconClient>().drain_sent().collect();
+                for _ in 0..t.reconnect.min(3) {
+                    if let Err(p) = upd(&mut server).and_then(|_| upd(&mut client)) {
+                        v("panic", format!("frame between two sessions panicked: {p}"));
+                        return Outcome { violations, stats, harness_error: None, log };
+                    }
+                }
+                let _: Vec<_> = server.world_mut().resource_mut::<RepliconServer>().drain_sent().collect();
+            }
         }
-        if let Err(p) = res {
-            v("panic", format!("handshake panicked: {p}"));
-            return Outcome { violations, stats, harness_error: None, log };
-        }
-        let authorized = server.world().get_entity(ce).map(|e| e.contains::<AuthorizedClient>()).unwrap_or(false);
-        let requests = server.world().resource::<Requests>().0.clone();
-        if equal {
-            if !authorized {
-                v("matching_client_not_authorized", format!("hashes match ({hs}) but the client was not authorized"));
-            }
-            if mismatch_sent > 0 || !requests.is_empty() {
-                v("matching_client_rejected", format!("hashes match but {mismatch_sent} mismatch message(s) were sent and {} disconnect request(s) emitted", requests.len()));
-            }
-        } else {
-            if authorized {
-                v("mismatching_client_authorized", format!("server {hs} authorized a client with {hc}"));
-            }
-            if mismatch_sent == 0 {
-                v("mismatch_not_notified", "hashes differ but no ProtocolMismatch was sent to the client".into());
-            }
-            if !requests.contains(&ce) {
-                v("disconnect_not_requested", "hashes differ but no DisconnectRequest was emitted for the client".into());
-            }
-            if other_sent > 0 {
-                v("data_to_mismatching_client", format!("{other_sent} other message(s) were sent to the client whose protocol differs"));
-            }
-        }
-        let sig = (equal as u64) | ((t.delay as u64) << 1) | ((t.late_client as u64) << 4) | ((t.server.len() as u64) << 5) | (edit_kind(&t.server, &t.client) << 10);
+        let sig = (equal as u64) | ((t.delay as u64) << 1) | ((t.late_client as u64) << 4) | ((t.server.len() as u64) << 5) | (edit_kind(&t.server, &t.client) << 10) | ((t.reconnect.min(3) as u64) << 13);
         stats.sigs.insert(sig);
         stats.nontrivial_sigs.insert(sig);
         stats.progress_runs = 1;
@@ -418,7 +439,7 @@ impl Engine for C14 {
         let server = random_seq(&mut r);
         let client = if r.chance(35) { server.clone() } else { edit(&mut r, &server) };
         let (server, client) = if r.chance(50) { (server, client) } else { (client, server) };
-        T14 { server, client, delay: r.weighted(&[5, 3, 1, 1]) as u8, late_client: r.chance(20) }
+        T14 { server, client, delay: r.weighted(&[5, 3, 1, 1]) as u8, late_client: r.chance(20), reconnect: r.weighted(&[6, 2, 1, 1]) as u8 }
     }
 
     fn run(t: &T14, verbose: bool, _no_taint: bool) -> Outcome {
@@ -464,6 +485,11 @@ impl Engine for C14 {
             c.late_client = false;
             v.push(c);
         }
+        if t.reconnect > 0 {
+            let mut c = t.clone();
+            c.reconnect -= 1;
+            v.push(c);
+        }
         v
     }
 
@@ -482,18 +508,24 @@ impl Engine for C14 {
         let trg_a = vec![Reg::STrigger(0), Reg::STrigger(1), Reg::IndepTrigger(0)];
         let trg_b = vec![Reg::STrigger(0), Reg::STrigger(1), Reg::IndepTrigger(1)];
         vec![
-            Directed { id: "independence_type", trace: T14 { server: ind_a, client: ind_b, delay: 0, late_client: false }, symptom_oracles: vec![] },
-            Directed { id: "independence_trigger_type", trace: T14 { server: trg_a, client: trg_b, delay: 1, late_client: false }, symptom_oracles: vec![] },
-            Directed { id: "independence_kind", trace: T14 { server: both, client: both2, delay: 0, late_client: false }, symptom_oracles: vec![] },
-            Directed { id: "equal", trace: T14 { server: base.clone(), client: base.clone(), delay: 1, late_client: false }, symptom_oracles: vec![] },
-            Directed { id: "order", trace: T14 { server: base.clone(), client: swapped, delay: 0, late_client: false }, symptom_oracles: vec![] },
-            Directed { id: "priority", trace: T14 { server: base.clone(), client: prio, delay: 2, late_client: true }, symptom_oracles: vec![] },
-            Directed { id: "independence", trace: T14 { server: indep, client: base, delay: 0, late_client: false }, symptom_oracles: vec![] },
+            Directed { id: "reconnect_equal", trace: T14 { server: base.clone(), client: base.clone(), delay: 0, late_client: false, reconnect: 1 }, symptom_oracles: vec![] },
+            Directed { id: "reconnect_different", trace: T14 { server: base.clone(), client: {
+                let mut x = base.clone();
+                x.swap(0, 1);
+                x
+            }, delay: 0, late_client: false, reconnect: 2 }, symptom_oracles: vec![] },
+            Directed { id: "independence_type", trace: T14 { server: ind_a, client: ind_b, delay: 0, late_client: false, reconnect: 0 }, symptom_oracles: vec![] },
+            Directed { id: "independence_trigger_type", trace: T14 { server: trg_a, client: trg_b, delay: 1, late_client: false, reconnect: 0 }, symptom_oracles: vec![] },
+            Directed { id: "independence_kind", trace: T14 { server: both, client: both2, delay: 0, late_client: false, reconnect: 0 }, symptom_oracles: vec![] },
+            Directed { id: "equal", trace: T14 { server: base.clone(), client: base.clone(), delay: 1, late_client: false, reconnect: 0 }, symptom_oracles: vec![] },
+            Directed { id: "order", trace: T14 { server: base.clone(), client: swapped, delay: 0, late_client: false, reconnect: 0 }, symptom_oracles: vec![] },
+            Directed { id: "priority", trace: T14 { server: base.clone(), client: prio, delay: 2, late_client: true, reconnect: 0 }, symptom_oracles: vec![] },
+            Directed { id: "independence", trace: T14 { server: indep, client: base, delay: 0, late_client: false, reconnect: 0 }, symptom_oracles: vec![] },
         ]
     }
 
     fn rule() -> &'static str {
-        "each evaluation builds a server app and a client app from two registration sequences (equal, or differing by one edit: swap, insert, delete, change of kind, priority or type; <= 10 registrations over 6 component types, 2 bundles and 3 event types) and simulates the default protocol-check handshake between them with the hash message held for 0-3 server frames. distinct_nontrivial counts distinct (equal?, delay, client stall, sequence length, edit class) combinations"
+        "each evaluation builds a server app and a client app from two registration sequences (equal, or differing by one edit: swap, insert, delete, change of kind, priority or type; <= 10 registrations over 6 component types, 2 bundles and 3 event types) and simulates the default protocol-check handshake between them with the hash message held for 0-3 server frames; in 40% of the evaluations the connection is then closed on both ends and the handshake repeated by the same two apps 1-3 frames later. distinct_nontrivial counts distinct (equal?, delay, client stall, sequence length, edit class, reconnect gap) combinations"
     }
 
     fn components() -> serde_json::Value {
